@@ -192,10 +192,10 @@ def aero_pipeline_suite(stats, tier=None, n=None, label="pipeline:AeroPoint"):
     return stats
 
 
-def model_compressible_states(surfaces, flow):
+def model_compressible_states(surfaces, flow, rotational=False):
     from .pipelines import left_flag
-    ints = [len(surfaces)]
-    fl = [flow["alpha"], flow["beta"], flow["v"], flow["rho"], flow["Mach_number"]]
+    ints = [int(rotational), len(surfaces)]
+    fl = [flow["alpha"], flow["beta"], flow["v"], flow["rho"], flow["Mach_number"]] + list(flow["omega"]) + list(flow["cg"])
     for s in surfaces:
         m = s["mesh"]
         ints += [m.shape[0], m.shape[1], int(s["symmetry"]), int(left_flag(m)), 0]
@@ -212,10 +212,10 @@ def compressible_pipeline_suite(stats, tier=None, n=None, label="pipeline:Compre
     n = n if n is not None else (5 if tier == "quick" else 40)
     for k in range(n):
         rng = core.rng_for("compressible_pipeline", k)
-        surfaces, flow, _ = aero_case(rng, tier, force=dict(ground=False, rotational=False))
+        surfaces, flow, rotational = aero_case(rng, tier, force=dict(ground=False))
         flow["Mach_number"] = float(rng.uniform(0.05, 0.88))
         try:
-            prob = pipelines.run_aero_point(surfaces, flow, compressible=True)
+            prob = pipelines.run_aero_point(surfaces, flow, compressible=True, rotational=rotational)
         except Exception as e:
             stats.disagreements.append(dict(kind="real-code-exception", component="AeroPoint(compressible)",
                                             detail="%s: %s" % (type(e).__name__, str(e)[:300]), seed_keys=["compressible_pipeline", k]))
@@ -223,14 +223,15 @@ def compressible_pipeline_suite(stats, tier=None, n=None, label="pipeline:Compre
             continue
         real = pipelines.aero_outputs(prob, surfaces)
         real_forces = np.concatenate([real[s["name"]]["sec_forces"].reshape(-1, 3) for s in surfaces])
-        mod = model_compressible_states(surfaces, flow)
+        mod = model_compressible_states(surfaces, flow, rotational)
         cond = float(np.linalg.cond(np.array(prob.get_val("pt.aero_states.mtx"))))
         ok, msg = close_vec(real_forces, mod, rtol=1e-9 + 1e-13 * cond)
         if not ok:
             stats.disagreements.append(dict(kind="pipeline-value", component="AeroPoint(compressible):sec_forces",
                                             size=[s["mesh"].shape[:2] for s in surfaces], detail=msg, seed_keys=["compressible_pipeline", k]))
         stats.count(label, case_hash("comp", k, flow["Mach_number"], surfaces[0]["mesh"]), bool(np.any(np.abs(real_forces) > 0)),
-                    ("surfaces=%d" % len(surfaces), "sideslip=%s" % (flow["beta"] != 0), "Mach>0.5=%s" % (flow["Mach_number"] > 0.5)))
+                    ("surfaces=%d" % len(surfaces), "sideslip=%s" % (flow["beta"] != 0), "Mach>0.5=%s" % (flow["Mach_number"] > 0.5),
+                     "rotational=%s" % rotational))
         if k == 0:
             stats.sample(dict(suite=label, Mach=flow["Mach_number"], alpha=flow["alpha"], CL=real["CL"], cond=cond))
     return stats
